@@ -11,7 +11,8 @@ Script keys (origin.h2_script):
   order           'fifo' | 'reverse' | 'interleave' (DATA round-robin across held streams)
   data_chunk      size of response DATA frames
   actions         [{'when': ('head'|'end', n), 'do': 'goaway'|'rst'|'settings'|'ping'|'close',
-                    ...args}]  n = ordinal of the request on this connection
+                    ...args}]  n = ordinal of the request on this connection; optional 'conn': k restricts
+                    the action to the k-th connection the origin accepted
 """
 from __future__ import annotations
 
@@ -206,6 +207,7 @@ class H2Server:
         self.origin = oc.origin
         self.tr = tr
         self.script = dict(self.origin.h2_script or {})
+        self.conn_index = len(self.origin.conns) - 1 if oc in self.origin.conns else len(self.origin.conns)
         cfg = h2.config.H2Configuration(client_side=False, header_encoding=None)
         self.conn = h2.connection.H2Connection(config=cfg)
         self.ledger = FrameLedger(self)
@@ -446,6 +448,11 @@ class H2Server:
         pol = self.script.get("win", "auto")
         if n <= 0:
             return
+        if self.goaway_last is not None and sid > self.goaway_last:
+            # a stream the GOAWAY refused: the server ignores what still arrives on it (RFC 9113 6.8) and, about to go
+            # away, returns no credit for it. (The h2 package on the client side rejects every frame that follows a
+            # GOAWAY, so credit sent here would only turn the refusal into a connection error.)
+            return
         stream_open = sid in self.conn.streams and not self.conn.streams[sid].closed
         if pol == "auto":
             self._wu(0, n)
@@ -527,6 +534,8 @@ class H2Server:
         for act in self.script.get("actions", []):
             if tuple(act["when"]) != (when, req.ordinal):
                 continue
+            if "conn" in act and act["conn"] != self.conn_index:
+                continue  # only on the n-th connection this origin accepted
             do = act["do"]
             if do == "goaway":
                 last = act.get("last")
